@@ -38,7 +38,7 @@ def parse_exps_meta_attributes(explorerscript_src: str) -> dict[str, Any]:
     if len(lines) < 1:
         return {}
     regex_attr_line = re.compile(r"//\?:\s*(.*?):\s*(.*)")
-    while lines[attribute_reader_line].strip().startswith("//?:"):
+    while attribute_reader_line < len(lines) and lines[attribute_reader_line].strip().startswith("//?:"):
         try:
             line = lines[attribute_reader_line]
             match = regex_attr_line.search(line)
